@@ -1243,9 +1243,11 @@ def _field_line(name, ftype, default, q):
     return '    %s %s%s' % (name, ftype.replace('{q}', q), '' if default is None else ' = ' + default)
 
 
-def sparse_leaf(rng, idx, site, feature):
+def sparse_leaf(rng, idx, site, feature, share=None, reuse=0.6):
     """One leaf namespace `lf<idx>` (and what it needs in the provider / in a namespace between), or None when the
-    combination is not expressible in Stone."""
+    combination is not expressible in Stone. `share` (a dict kept per spec): leaves of the same feature may use the SAME
+    provider definition (several subtypes of one parent, several users of one alias), which is what exposes state kept
+    across namespaces."""
     key, ftype, default, prim = feature
     ns = 'lf%d' % idx
     foreign = '{q}' in ftype
@@ -1253,40 +1255,58 @@ def sparse_leaf(rng, idx, site, feature):
     extra = []         # [(namespace name, lines)] of namespaces between provider and leaf
     body = []
     imports = {'prov'}
-    P, A, U, L = 'P%d' % idx, 'A%d' % idx, 'U%d' % idx, 'L%d' % idx
+    L = 'L%d' % idx
 
-    def parent_block():
-        return (['struct %s' % P] + _plain_fields(rng, 'pa', 0, 1) + [_field_line('feat', ftype, default, '')]
+    def provide(kind, make):
+        k = (kind, ftype, default)
+        if share is not None and k in share and rng.random() < reuse:
+            name, block = share[k]
+        else:
+            name = '%s%d' % (kind, idx)
+            block = make(name)
+            if share is not None:
+                share[k] = (name, block)
+        prov.append(block)
+        return name
+
+    def parent_block(name):
+        return (['struct %s' % name] + _plain_fields(rng, 'pa', 0, 1) + [_field_line('feat', ftype, default, '')]
                 + _plain_fields(rng, 'pb', 0, 1) + [''])
+
+    def alias_block(name):
+        return ['alias %s = %s' % (name, ftype.replace('{q}', '')), '']
+
+    def union_block(name):
+        return ['union %s' % name, '    base_tag', _field_line('feat', ftype, None, ''), '']
 
     if site == 'own':
         body = ['struct %s' % L] + _plain_fields(rng, 'a') + [_field_line('feat', ftype, default, 'prov.')] + _plain_fields(rng, 'b')
         if not foreign:
             imports = set()
     elif site in ('inherit', 'inherit-nothing-added'):
-        prov.append(parent_block())
+        P = provide('P', parent_block)
         own = _plain_fields(rng, 'own', 1, 2) if site == 'inherit' else ['    "Adds nothing."']
         body = ['struct %s extends prov.%s' % (L, P)] + own
     elif site == 'inherit-via-namespace':
         if foreign:
             return None        # the leaf would mention `prov` without naming it anywhere (the listed finding of C15)
-        prov.append(parent_block())
+        P = provide('P', parent_block)
         mid = 'mid%d' % idx
         extra.append((mid, ['namespace %s' % mid, '', 'import prov', '', 'struct M%d extends prov.%s' % (idx, P)]
                       + _plain_fields(rng, 'm', 1, 1) + ['']))
         imports = {mid}
         body = ['struct %s extends %s.M%d' % (L, mid, idx)] + _plain_fields(rng, 'own', 1, 2)
     elif site == 'inherit-via-local-parent':
-        prov.append(parent_block())
+        P = provide('P', parent_block)
         body = (['struct M%d extends prov.%s' % (idx, P)] + _plain_fields(rng, 'm', 1, 1) + ['']
                 + ['struct %s extends M%d' % (L, idx)] + _plain_fields(rng, 'own', 1, 2))
     elif site in ('alias', 'tag-alias'):
-        prov.append(['alias %s = %s' % (A, ftype.replace('{q}', '')), ''])
+        if site == 'tag-alias' and default is not None:
+            return None
+        A = provide('A', alias_block)
         if site == 'alias':
             body = ['struct %s' % L] + _plain_fields(rng, 'a') + [_field_line('feat', 'prov.' + A, default, 'prov.')] + _plain_fields(rng, 'b')
         else:
-            if default is not None:
-                return None
             body = ['union %s' % L, '    nothing', '    feat prov.%s' % A] + _plain_fields(rng, 't', 0, 1)
     elif site == 'tag':
         if default is not None:
@@ -1302,14 +1322,14 @@ def sparse_leaf(rng, idx, site, feature):
     elif site == 'control-union-extends':
         if default is not None:
             return None
-        prov.append(['union %s' % U, '    base_tag', _field_line('feat', ftype, None, ''), ''])
+        U = provide('U', union_block)
         body = ['union %s extends prov.%s' % (L, U), '    extra_tag']
     elif site == 'control-alias-only':
         body = ['alias %s = %s' % (L, ftype.replace('{q}', 'prov.'))]
         if not foreign:
             imports = set()
     elif site == 'control-route-only':
-        prov.append(parent_block())
+        P = provide('P', parent_block)
         body = ['route r%d(prov.%s, Void, Void)' % (idx, P)]
     else:
         raise ValueError(site)
@@ -1319,7 +1339,11 @@ def sparse_leaf(rng, idx, site, feature):
 
 def sparse_assemble(leaves):
     """[(path, text)] of provider + namespaces between + leaves"""
-    blocks = [b for lf in leaves for b in lf['prov']]
+    blocks = []
+    for lf in leaves:
+        for b in lf['prov']:
+            if not any(b is x for x in blocks):        # a shared definition once
+                blocks.append(b)
     text = '\n'.join(l for b in blocks for l in b)
     common = [PROV_COMMON[k] for k in ('Foo', 'Mode') if k in text or any(k in '\n'.join(lf['lines']) for lf in leaves)]
     specs = []
@@ -1373,32 +1397,59 @@ def _run_sparse(ck, batch):
         by_ns = {lf['ns']: lf for lf in leaves}
         by_ns.update({name: lf for lf in leaves for name, _ in lf['extra']})
         reduced = {}
+
+        def smaller(lf):
+            """the leaf alone, then the leaf with the leaves that draw on the same provider definitions (in spec order)"""
+            if lf['ns'] not in reduced:
+                tag = '%s/%s:%s:%s' % (label, lf['ns'], lf['site'], lf['feature'])
+                tries = [(run_case(ck, sparse_assemble([lf]), tag))]
+                group = [o for o in leaves if o is lf or any(b is x for b in o['prov'] for x in lf['prov'])]
+                if 1 < len(group) < len(leaves):
+                    tries.append(run_case(ck, sparse_assemble(group), tag + '+sharing'))
+                reduced[lf['ns']] = [t for t in tries if t is not None]
+            return reduced[lf['ns']]
+
         for what, sig, detail in case.problems:
             lf = by_ns.get(detail.get('ns'))
-            if lf is None or len(leaves) == 1:
-                ck.failing_input(what, sig, case.case_dict(detail=detail))
-                continue
-            if lf['ns'] not in reduced:
-                reduced[lf['ns']] = run_case(ck, sparse_assemble([lf]), '%s/%s:%s:%s' % (label, lf['ns'], lf['site'], lf['feature']))
-            small = reduced[lf['ns']]
-            same = [p for p in (small.problems if small is not None else []) if p[1] == sig]
-            if same:
-                ck.failing_input(same[0][0], sig, small.case_dict(detail=same[0][2]))
+            hit = None
+            if lf is not None and len(leaves) > 1:
+                for small in smaller(lf):
+                    same = [p for p in small.problems if p[1] == sig]
+                    if same:
+                        hit = (same[0][0], small.case_dict(detail=same[0][2]))
+                        break
+            if hit:
+                ck.failing_input(hit[0], sig, hit[1])
             else:
                 ck.failing_input(what, sig, case.case_dict(detail=detail))
 
 
-def suite_sparse_matrix(ck, per_spec=10):
-    """every site x every feature, once; the cosmetic choices (number and types of the plain neighbours) come from ck.rng"""
+def suite_sparse_matrix(ck, per_spec=12):
+    """every site x every feature, once, and where the leaf draws on a provider definition a twin leaf on the SAME
+    definition in the same spec (state kept from one namespace to the next shows in the second); the cosmetic choices
+    (number and types of the plain neighbours) come from ck.rng"""
     combos = [(s, f) for s in SITES for f in FEATURES]
     ck.rng.shuffle(combos)
-    leaves = []
+    groups, n = [], 0
     for s, f in combos:
-        lf = sparse_leaf(ck.rng, len(leaves), s, f)
-        if lf is not None:
-            leaves.append(lf)
-    ck.stat('sparse.matrix-leaves', len(leaves))
-    batch = [(leaves[i:i + per_spec], 'sparse:matrix#%d' % (i // per_spec)) for i in range(0, len(leaves), per_spec)]
+        share = {}
+        lf = sparse_leaf(ck.rng, n, s, f, share)
+        if lf is None:
+            continue
+        group = [lf]
+        if lf['prov'] and not s.startswith('control-'):
+            group.append(sparse_leaf(ck.rng, n + 1, s, f, share, reuse=1.0))
+        n += len(group)
+        groups.append(group)
+    ck.stat('sparse.matrix-leaves', n)
+    batch, cur = [], []
+    for g in groups:
+        if cur and len(cur) + len(g) > per_spec:
+            batch.append((cur, 'sparse:matrix#%d' % len(batch)))
+            cur = []
+        cur = cur + g
+    if cur:
+        batch.append((cur, 'sparse:matrix#%d' % len(batch)))
     _run_sparse(ck, batch)
 
 
@@ -1410,10 +1461,14 @@ def suite_sparse_random(ck, n_specs, batch=20):
         todo = []
         for i in range(done, min(done + batch, n_specs)):
             leaves = []
+            share = {} if ck.rng.random() < 0.5 else None
+            feats = [_nested_feature(ck.rng) if ck.rng.random() < 0.7 else ck.rng.choice(FEATURES) for _ in range(ck.rng.randint(1, 3))]
             for _ in range(ck.rng.randint(1, 7)):
                 for _try in range(8):
-                    lf = sparse_leaf(ck.rng, len(leaves), ck.rng.choice(SITES[:9] if ck.rng.random() < 0.9 else SITES),
-                                     _nested_feature(ck.rng) if ck.rng.random() < 0.7 else ck.rng.choice(FEATURES))
+                    # with sharing: few features per spec, so that leaves meet on the same provider definition
+                    feat = ck.rng.choice(feats) if share is not None else (
+                        _nested_feature(ck.rng) if ck.rng.random() < 0.7 else ck.rng.choice(FEATURES))
+                    lf = sparse_leaf(ck.rng, len(leaves), ck.rng.choice(SITES[:9] if ck.rng.random() < 0.9 else SITES), feat, share)
                     if lf is not None:
                         leaves.append(lf)
                         break
